@@ -221,7 +221,13 @@ func (d *Decls) sortOf(t types.Type) string {
 }
 
 func typeKey(t types.Type) string {
-	return sanitize(types.TypeString(t, func(p *types.Package) string { return p.Name() }))
+	// package name, plus a path digest for packages whose name alone is ambiguous (internal/sync vs sync)
+	return sanitize(types.TypeString(t, func(p *types.Package) string {
+		if strings.Contains(p.Path(), "internal/") {
+			return strings.ReplaceAll(p.Path(), "/", "_")
+		}
+		return p.Name()
+	}))
 }
 
 func (d *Decls) structSort(t types.Type, st *types.Struct) string {
